@@ -12,11 +12,11 @@ CHECKS = {
             '(M) fault-free history refinement; trusted base: refmodel/rcell.py (SHA-256 from hashlib), validated on the pinned main-net block and empty-cell hashes; contents are seeded samples',
             'deterministic simulation: seeded route histories vs reference cell model'),
     'C03': ('POOL', 'worlds/pool.py', 'exploration', '6 C03',
-            'seeded histories: serialise with each of the 6 option sets x 3 encodings x 4 entry points through a lossless store, re-parse and compare recursively with the model and the original hash; forced shape classes incl. 256/65536 boundaries and 1023-deep chains',
+            'seeded histories: serialise with each of the 6 option sets x 3 encodings x 4 entry points through a lossless store, re-parse and compare recursively with the model and the original hash; forced shape classes incl. 256/65536 boundaries, 1023-deep chains and chains of data-less cells',
             '(M) fault-free; trusted base: refmodel/rcell.py + refmodel/boc.py; sampling, not enumeration, of DAGs',
             'deterministic simulation: seeded configuration/route histories with reference BoC codec'),
     'C05': ('WIRE', 'worlds/wire.py', 'fault_enumeration', '6 C05',
-            'foreign conforming encoder (all freedoms) -> medium -> parser; per sampled encoding EVERY proper prefix, a set of extensions, EVERY single-bit flip (CRC-protected encodings) and every reference-slot corruption (self/backward/dangling, CRC recomputed) is delivered; strict reference decoder decides validity',
+            'foreign conforming encoder (all freedoms) -> medium -> parser; per sampled encoding EVERY proper prefix, a set of extensions, EVERY single-bit flip (CRC-protected encodings) and every reference-slot corruption (self/backward/dangling, CRC recomputed) is delivered, as bytes or as hex/base64 text; strict reference decoder decides validity',
             '(S) simulation proper: the medium injects the faults; trusted base: refmodel/boc.py strict decoder; encodings are seeded samples, the fault set per encoding is exhaustive',
             'deterministic simulation: exhaustive fault enumeration per seeded encoding'),
     'C06': ('BUILD', 'worlds/build.py', 'exploration', '6 C06',
@@ -28,11 +28,11 @@ CHECKS = {
             '(M) history refinement with refused operations as the error paths; trusted base: refmodel/tlb.py, refmodel/rcell.py',
             'deterministic simulation: limit-aimed seeded histories vs executable reference model'),
     'C08': ('POOL', 'worlds/pool.py', 'exploration', '6 C08',
-            'K interleaved callers over a shared cell arena; after every step every live cell equals its creation snapshot, arguments are untouched, repeated reads agree; after the run each caller log equals its solo replay (non-interference); callers go on using what the library returned (order() dicts as accumulators, from_boc lists as work lists)',
+            'K interleaved callers over a shared cell arena; after every step every live cell equals its creation snapshot, arguments are untouched, repeated reads agree; after the run each caller log equals its solo replay (non-interference); callers go on using what the library returned (order() dicts as accumulators, from_boc lists as work lists, values handed out by read-only accessors edited in place)',
             '(S) the scheduler owns the caller interleaving and hidden process state; the library is compared with itself, no reference hash involved',
             'deterministic simulation: seeded caller interleavings with snapshot invariants and solo-replay non-interference'),
     'C09': ('DICT', 'worlds/dict.py', 'exploration', '6 C09',
-            'set-sequence histories (permutations, overwrites, rejected keys) on HashMap, then serialise and every parse route; exhaustive key subsets for widths 1..3 (4 in thorough)',
+            'set-sequence histories (permutations, overwrites, rejected keys) on HashMap, then serialise and every parse route; exhaustive key subsets for widths 1..3 (4 in thorough); value kinds incl. maps of maps (writer and parser re-entered from a value)',
             '(M) fault-free; model is a Python dict; canonical-form questions are C10 (not applicable)',
             'deterministic simulation: seeded + exhaustive insertion histories vs dict model'),
     'C11': ('CHAIN', 'worlds/chain.py', 'exploration', '6 C11',
@@ -40,15 +40,15 @@ CHECKS = {
             '(S) Byzantine prover + faulty transport; trusted base: refmodel RCell/BoC/hashmap and the synthetic block/state builders',
             'deterministic simulation: Byzantine prover and transport faults vs reference verifier'),
     'C12': ('CHAIN', 'worlds/chain.py', 'exploration', '6 C12',
-            'validators sign over a lossy/duplicating/reordering net with Byzantine signers; the collected multiset is judged by the statement model (distinct valid known signers, strict > 2/3); validator rotation, sibling-block replays incl. one identifier object advanced in place, validator_addr sets with signatures filed under ADNL addresses',
+            'validators sign over a lossy/duplicating/reordering net with Byzantine signers; the collected multiset is judged by the statement model (distinct valid known signers, strict > 2/3); validator rotation, sibling-block replays incl. one identifier object advanced in place, signers that sign again with a fresh nonce, validator_addr sets with signatures filed under ADNL addresses',
             '(S) network faults + Byzantine validators; Ed25519 from PyNaCl is trusted',
             'deterministic simulation: faulty signature-collection network vs acceptance model'),
     'C13': ('WIRE', 'worlds/wire.py', 'fault_enumeration', '6 C13',
-            'text channel: every workchain x 8 variants round trip; per sampled address and variant all 48x63 single-character substitutions must be rejected; address objects obtained by eight routes (incl. anycast carriers, objects used as cursors), related addresses in one process, engineered checksums',
+            'text channel: every workchain x 8 variants round trip; per sampled address and variant all 48x63 single-character substitutions must be rejected; address objects obtained by eight routes (incl. anycast carriers, objects used as cursors), related addresses in one process, engineered checksums, receivers started with other interpreter options (-O, -OO, -I ...)',
             '(S) symbol faults in a medium; CRC-16 burst detection argument in DESIGN 6/C13; reference CRC-16 bitwise',
             'deterministic simulation: exhaustive symbol-substitution enumeration per seeded address'),
     'C14': ('TL', 'worlds/tl.py', 'exploration', '6 C14',
-            'all 6 schema-directory orders x every in-domain constructor x seeded values; reference TL codec taps the wire both ways; bare/by-name argument forms, embedded objects, sender and receiver keep using the values, block-id helpers incl. edited dicts and identifiers advanced in place',
+            'all 6 schema-directory orders x every in-domain constructor x seeded values; reference TL codec taps the wire both ways; bare/by-name argument forms, embedded objects (dict, OrderedDict, subclass), sender and receiver keep using the values, block-id helpers incl. edited dicts and identifiers advanced in place',
             '(M)/(E) environment seam os.listdir; trusted base: refmodel/tl.py',
             'deterministic simulation: directory-order seam + peer frames vs reference TL codec'),
     'C17': ('VM', 'worlds/vm.py', 'exploration', '6 C17',
@@ -56,7 +56,7 @@ CHECKS = {
             '(M) fault-free histories; trusted base: refmodel/vm.py',
             'deterministic simulation: repeated-call histories vs reference encoder and snapshots'),
     'C19': ('WORK', 'worlds/work.py', 'exploration', '6 C19',
-            'step clock (executed pytoniq_core source lines) with budgets polynomial in n+e / linear in input length; adversarial sharing shapes and count fields',
+            'step clock (executed pytoniq_core source lines) with budgets polynomial in n+e / linear in input length; adversarial sharing shapes and count fields, byte and text (hex/base64, cut at every length) inputs',
             '(S) simulated time is the only clock; budgets documented in DESIGN 6/C19',
             'deterministic simulation: step-clock budgets under adversarial inputs'),
     'C20': ('ADNL', 'worlds/adnl.py', 'exploration', '6 C20',
